@@ -844,9 +844,23 @@ enum Op {
     /// one jump of the ledger per history, longer than the library's TTL extension of a claimed
     /// flag (30 days of ledgers) and shorter than the environment's minimum persistent lifetime
     Advance(u32),
+    /// no call at all and no transition: on a rebuilt copy of the state (also of the states after
+    /// the jump) 600000 ledgers pass without any invocation; claimed flags, balances and the root
+    /// must be what they were, and an honest claim for a still unclaimed index of the current
+    /// root's tree must then behave as the model says
+    IdleProbe,
 }
 
 const JUMP: u32 = 600_000;
+/// ledgers that pass in an idle probe (largest TTL extension of the library: 518400; persistent
+/// TTL of `envx::mk_env`: 3000000, so even jump + probe stays inside it)
+const IDLE: u32 = 600_000;
+
+/// A disagreement found after the idle period: nothing was called in between, so whatever differs
+/// from the model was lost (or appeared) through the passage of time alone.
+fn idle_viol(v: Violation) -> Violation {
+    Violation::new("state-survives-idle", format!("after {IDLE} ledgers without any call [{}] {}", v.oracle, v.detail))
+}
 
 #[derive(Clone, Debug, PartialEq, Eq, Hash)]
 struct Obs {
@@ -904,6 +918,7 @@ impl Dist {
     fn exec(&self, i: &Inst, op: &Op) -> bool {
         let e = &i.e;
         match op {
+            Op::IdleProbe => false,
             Op::Advance(k) => {
                 envx::advance(e, *k);
                 true
@@ -943,6 +958,51 @@ impl Dist {
             }
         }
         Ok(o)
+    }
+
+    /// The idle probe (see `Op::IdleProbe`) on a throw-away copy of the state.
+    fn idle_probe(&self, copy: &mut Inst, m: &Model, cx: &mut StepCtx<Self>) -> Result<(), Violation> {
+        envx::advance(&copy.e, IDLE);
+        let post = self.observe(copy).map_err(idle_viol)?;
+        ensure!(post == m.obs, "state-survives-idle", "after {IDLE} ledgers without any call the contract shows {:?}, before it was {:?}", post, m.obs);
+        let mut n = NI as u64 + if copy.token.is_some() { NR as u64 + 1 } else { 0 };
+        if self.fl != Fl::Example {
+            // the wrappers expose the root (the getter fails while no root is set)
+            let got = match view(&copy.e, &copy.c, "get_root", SVec::new(&copy.e)) {
+                Ok(v) => Some(BytesN::<32>::try_from_val(&copy.e, &v).map_err(|_| Violation::new("getter", "get_root: not BytesN<32>".into()))?.to_array()),
+                Err(_) => None,
+            };
+            let want = m.root.map(|t| copy.trees[t].b.root);
+            ensure!(
+                got == want,
+                "state-survives-idle",
+                "after {IDLE} ledgers without any call get_root {} although the model's root is {:?}",
+                match got {
+                    Some(_) => "returns another value",
+                    None => "fails",
+                },
+                m.root.map(|t| format!("T{t}"))
+            );
+            n += 1;
+        }
+        cx.stats.count("getter-comparisons-after-long-idle", n);
+        // the root is still in force (the example has no getter for it): one honest claim, judged
+        // by the oracles of an ordinary step; its statistics are kept apart from the vacuity counters
+        if let Some(t) = m.root {
+            let unclaimed = (0..copy.trees[t].spec.len()).find(|k| !m.obs.claimed[copy.trees[t].spec[*k].0 as usize]);
+            if let Some(k) = unclaimed {
+                let op = Op::Claim { index: copy.trees[t].spec[k].0, of: (t, k), amt: Amt::Same, proof: Pf::Of(t, k) };
+                let mut m2 = m.clone();
+                let mut own = vh::engine::Stats::default();
+                let ok = {
+                    let mut cx2 = StepCtx { world: self, seed: cx.seed, hist: cx.hist, stats: &mut own };
+                    self.step(copy, &mut m2, &op, &mut cx2).map_err(idle_viol)?
+                };
+                cx.stats.count(if ok { "honest claims after long idle -> ok" } else { "honest claims after long idle -> refused (cannot pay)" }, 1);
+            }
+        }
+        cx.stats.count("idle-probes", 1);
+        Ok(())
     }
 
     /// seeds of the example world: (tree fixed by the constructor, funding)
@@ -1066,6 +1126,7 @@ impl World for Dist {
         if !m.jumped {
             v.push(Op::Advance(JUMP));
         }
+        v.push(Op::IdleProbe);
         v
     }
 
@@ -1077,6 +1138,7 @@ impl World for Dist {
         match op {
             Op::SetRoot(_) => "set_root".into(),
             Op::Advance(_) => "advance".into(),
+            Op::IdleProbe => "idle-probe".into(),
             Op::Claim { index, of, amt, proof } => {
                 // classification by shape only (the verdict is the reference recomputation's)
                 let nat = leaf_specs(self.fl.positional())[of.0][of.1].0;
@@ -1101,8 +1163,14 @@ impl World for Dist {
         // (the pre-state needs no fresh observation: every state enters the frontier only after
         // its complete observation was compared with the model, and the engine's differential
         // check compares the model digests of merged histories)
+        if matches!(op, Op::IdleProbe) {
+            let mut copy = cx.rebuild();
+            self.idle_probe(&mut copy, m, cx)?;
+            return Ok(false);
+        }
         let ok = self.exec(i, op);
         match op {
+            Op::IdleProbe => unreachable!(),
             Op::Advance(_) => m.jumped = true,
             Op::SetRoot(t) => {
                 if ok {
@@ -1202,7 +1270,7 @@ fn main() {
     main_with(
         "C17",
         "model_checking",
-        "(1) stateless exhaustive enumeration: all trees of N=1..=9 (quick) / 1..=33 (thorough) distinct leaves built in the harness with sha2/sha3 in four shapes (sorted pairs with odd node carried up; sorted pairs in the OpenZeppelin merkle-tree array layout; positional with filler padding; positional with duplicate-last padding), x {SHA-256, Keccak-256} library hashers; for every leaf: honest proof -> Verifier::verify / verify_with_index must return true; every single-element corruption (leaf -> every other leaf / next leaf / foreign value / every inner node / each of 256 bit flips; every proof element -> each of 256 bit flips / every other node of the tree / foreign; every adjacent swap; every prefix truncation and single removal; extension at front/back by every node; every other index < 2^len, indices >= 2^len; proofs of 32/33 elements; root -> root of every other tree / each of 256 bit flips / every other node) must return false or fail unless the exact reference fold reproduces the root (then skipped and counted). (2) level-BFS over histories of claim(index 0..=3[4], receiver+amount of any leaf of three trees, amount same/+1[/0], proof of any leaf of any tree / empty / truncated / extended) and set_root(T0|T1|T2) and one ledger jump of 600000 per history on the real fungible-merkle-airdrop example (4 seeds: 3 roots, 1 under-funded) and 4 wrapper contracts over MerkleDistributor {sorted,indexed} x {sha256,keccak256}; after every step is_claimed(0..=4) and all token balances are compared with the model; non-trivial = distinct storage state reached through >=1 accepted call, plus distinct verifier inputs of (1)",
+        "(1) stateless exhaustive enumeration: all trees of N=1..=9 (quick) / 1..=33 (thorough) distinct leaves built in the harness with sha2/sha3 in four shapes (sorted pairs with odd node carried up; sorted pairs in the OpenZeppelin merkle-tree array layout; positional with filler padding; positional with duplicate-last padding), x {SHA-256, Keccak-256} library hashers; for every leaf: honest proof -> Verifier::verify / verify_with_index must return true; every single-element corruption (leaf -> every other leaf / next leaf / foreign value / every inner node / each of 256 bit flips; every proof element -> each of 256 bit flips / every other node of the tree / foreign; every adjacent swap; every prefix truncation and single removal; extension at front/back by every node; every other index < 2^len, indices >= 2^len; proofs of 32/33 elements; root -> root of every other tree / each of 256 bit flips / every other node) must return false or fail unless the exact reference fold reproduces the root (then skipped and counted). (2) level-BFS over histories of claim(index 0..=3[4], receiver+amount of any leaf of three trees, amount same/+1[/0], proof of any leaf of any tree / empty / truncated / extended) and set_root(T0|T1|T2) and one ledger jump of 600000 per history on the real fungible-merkle-airdrop example (4 seeds: 3 roots, 1 under-funded) and 4 wrapper contracts over MerkleDistributor {sorted,indexed} x {sha256,keccak256}; after every step is_claimed(0..=4) and all token balances are compared with the model; idle probe in every expanded state: on a rebuilt copy 600000 further ledgers pass without any call, is_claimed / balances / get_root (wrappers) are compared again and one honest claim of a still unclaimed leaf of the current root is judged by the same oracles; non-trivial = distinct storage state reached through >=1 accepted call, plus distinct verifier inputs of (1)",
         |tier: Tier, r: &mut Runner| {
             let th = tier == Tier::Thorough;
             part1(tier, r);
@@ -1223,6 +1291,7 @@ fn main() {
                     "refused: invalid proof",
                     "refused: valid proof, distributor cannot pay",
                 ]);
+                rep.require_counter(&["idle-probes", "getter-comparisons-after-long-idle", "honest claims after long idle -> ok"]);
             }
         },
     );
